@@ -325,6 +325,18 @@ def own_nodes(fn_node):
     return out
 
 
+def program_order(fn_node):
+    """key function: position of a node in the pre-order walk of the function (line numbers are not
+    usable for ordering once helpers were inlined: inlined statements keep the helper's lines)."""
+    idx = {}
+    stack = [fn_node]
+    while stack:
+        n = stack.pop()
+        idx[id(n)] = len(idx)
+        stack.extend(reversed(list(ast.iter_child_nodes(n))))
+    return lambda n: idx.get(id(n), 1 << 30)
+
+
 def own_statements(fn_node):
     """Statements of a function in source order, not descending into nested defs."""
     out = []
